@@ -9,7 +9,10 @@ LONG = GL.LONG_NAME
 # the four names of one histogram/summary family; the same for a name beyond any fixed buffer; names carrying two suffixes
 FAMILIES = [[b"X", b"X_sum", b"X_count", b"X_bucket"], [LONG, LONG + b"_sum", LONG + b"_count", LONG + b"_bucket"],
             [LONG[:121], LONG[:121] + b"_sum", LONG[:121] + b"_count", LONG[:121] + b"_bucket"],
-            [b"X_count", b"X_count_sum", b"X_sum", b"X_sum_bucket"]]
+            [b"X_count", b"X_count_sum", b"X_sum", b"X_sum_bucket"],
+            # chains of companions: a base, its companions, and THEIR companions (three related families at once)
+            [b"X", b"X_count", b"X_count_sum", b"X_count_bucket", b"X_sum", b"X_sum_count"],
+            [b"X", b"X_bucket", b"X_bucket_sum", b"X_bucket_count", b"X_sum_sum", b"X_sum"]]
 NAMES = FAMILIES[0]
 TYPES = [b"c", b"g", b"ms", b"h"]
 
@@ -21,7 +24,7 @@ def gen_case(rnd):
     rules = [GM.rule(b"*", b"$1", mmt=None, help=b"r0", ttl=rnd.choice([0, 0, 2 * 10**9]))]
     d = GM.defaults(observer_type=b"histogram" if hist else None)
     ops.append(GM.load_op((d, rules if rnd.random() < 0.5 else [])))
-    for _ in range(rnd.randint(2, 8)):
+    for _ in range(rnd.randint(2, 8) if len(NAMES) <= 4 else rnd.randint(4, 12)):
         r = rnd.random()
         if r < 0.75:
             l = rnd.choice(NAMES) + b":" + rnd.choice([b"1", b"2"]) + b"|" + rnd.choice(TYPES)
